@@ -3,9 +3,9 @@ from vdriver import Job, REPO
 
 LEVEL = "other"
 TECHNIQUE = "bounded inductive contract check (CBMC): one real Table operation on an arbitrary robin-hood table of enumerated capacity with symbolic contents and an uninterpreted hash; rehash proved modularly through the set_move contract"
-LEVEL_TEXT = "placeholder"
-NOTE = "placeholder"
-EXPLANATION = "K3"
+LEVEL_TEXT = 'Bounded inductive contract check: for an arbitrary well-formed robin-hood table of capacity 1, 3 (quick) and 5 (thorough) with fully symbolic occupancy, keys, values and stored homes, one real Table operation is run by CBMC and the representation invariant plus the change of the whole abstract map (operand key and an arbitrary other key) are asserted; hashes are uninterpreted so keys collide arbitrarily; rehash is proved modularly over the set_move contract. Induction over operations makes the result independent of history length; the capacity bound remains, so this is not counted as a proof.'
+NOTE = "CBMC 6.11; element model contracts for assign/destruct/eq/hash (discharged for Int under C09/C10); typed slot-array allocator model; narrow uninterpreted hash justified by a use-site scan; capacities above 5 not explored; Table_Get's pointer-range test relies on a flat address space"
+EXPLANATION = LEVEL_TEXT
 TRUSTED = ["narrow uninterpreted hash: the hash is consumed only as hash(key) % nslots in Table.c (use-site scan on every run)"]
 
 FLAT = [(r"Table_Get\.pointer\.1 ::|Table_Get\.pointer_arithmetic\.\d+ :: pointer relation", "flat address space: Table_Get's 'is the key inside the slot array' test compares unrelated pointers (implementation-defined, relied on by the code; not decided)")]
@@ -57,7 +57,7 @@ def jobs(tier):
         # capacity 0: Table_Get compares the key pointer with a NULL slot array on every path; with cbmc's pointer checks on, everything
         # behind that (ignored) failure stays undecided, so this one case runs with the arithmetic/bounds checks only
         add("lookup", "h_lookup", ns, ["Table_Get", "Table_Mem", "Table_Len", "Table_Key_Type", "Table_Val_Type"], unwind=ns + 2, safety=(ns != 0),
-            extra=([] if ns else ["--bounds-check", "--div-by-zero-check", "--signed-overflow-check", "--undefined-shift-check"]))
+            extra=([] if ns else ["--no-pointer-check", "--no-pointer-primitive-check"]))
         add("iter", "h_iter", ns, ["Table_Iter_Init", "Table_Iter_Next", "Table_Iter_Last", "Table_Iter_Prev"], defs=["GUARD"], unwind=ns + 3)
     add("emptied", "h_emptied", 0, ["Table_Set", "Table_Rehash", "Table_Set_Move", "Table_Mem", "Table_Iter_Init"], rc=["Table_Resize_More:cv_resize_more_stub"], unwind=4)
     add("set_compose", "h_set_compose", 3, ["Table_Set"], rc=["Table_Set_Move:cv_set_move_stub", "Table_Resize_More:cv_resize_more_stub"], unwind=5)
